@@ -12,6 +12,7 @@ structure Ctx where
   vs : List Val
   ds : List Int
   r  : Int
+  sid : Nat    -- identifier of the sequence object
 
 variable (K : Ctx)
 
@@ -20,18 +21,18 @@ def Ctx.tm (c i : Nat) : Nat := K.t0 + c * total K.ds + pre K.ds i
 def Ctx.val (i : Nat) : Val := K.vs.getD i (.num 0)
 def Ctx.dl (i : Nat) : Int := K.ds.getD i 0
 
-def toEv (p : Nat × Val) : Event := .sub p.1 0 p.2
+def Ctx.toEv (p : Nat × Val) : Event := .sub p.1 K.sid p.2
 
 /-- the log when everything before value i of pass c has been submitted -/
 def Ctx.logCI (c i : Nat) : List Event :=
-  (schedule K.t0 K.vs K.ds c ++ (passAt K.t0 K.vs K.ds c).take i).map toEv
+  (schedule K.t0 K.vs K.ds c ++ (passAt K.t0 K.vs K.ds c).take i).map K.toEv
 
-def mkSt (now : Nat) (ready : List Handle) (timers : List Timer) (seq : Option Seq) (log : List Event) : St :=
+def Ctx.mkSt (now : Nat) (ready : List Handle) (timers : List Timer) (seq : Option Seq) (log : List Event) : St :=
   { now := now, ready := ready, timers := timers, port := { Port.default with seq := seq }, waiting := none,
-    nextId := 1, log := log, subs := log.length, cap := 0, maxItems := 256, stopped := false, overlap := false,
+    nextId := K.sid + 1, log := log, subs := log.length, cap := 0, maxItems := 256, stopped := false, overlap := false,
     disLat := 0, disRaise := false, enLat := 0, enRaise := false, marks := [] }
 
-def Ctx.sq (c : Nat) (pos : Pos) : Seq := ⟨0, K.vs, K.ds, K.r, c, .pending pos false⟩
+def Ctx.sq (c : Nat) (pos : Pos) : Seq := ⟨K.sid, K.vs, K.ds, K.r, c, .pending pos false⟩
 
 /-- counter while asleep after value i of pass c -/
 def Ctx.cnt (c i : Nat) : Nat := if i + 1 < K.n then c else c + 1
@@ -40,20 +41,20 @@ inductive C
   | A (c : Nat)
   | Z (c i : Nat)
   | W1 (c i : Nat)
-  | W2 (c i : Nat)
+  | W2 (c i t : Nat)     -- t = the current time (other handles may let it advance while the task sleeps)
   | F1 (c : Nat)
-  | D (c : Nat)
+  | D (c t : Nat)
   deriving Repr
 
 def Ctx.emb : C → St
-  | .A c => mkSt (K.tm c 0) [.loopStep 0] [] (some (K.sq c .start)) (K.logCI c 0)
-  | .Z c i => mkSt (K.tm c i) [.ff 0 (K.val i), .loopStep 0] [] (some (K.sq (K.cnt c i) (.slept i))) (K.logCI c i)
-  | .W1 c i => mkSt (K.tm c i) [.ff 0 (K.val i)] [⟨K.tm c i + eff (K.dl i), 0, .loopStep 0⟩]
+  | .A c => K.mkSt (K.tm c 0) [.loopStep K.sid] [] (some (K.sq c .start)) (K.logCI c 0)
+  | .Z c i => K.mkSt (K.tm c i) [.ff K.sid (K.val i), .loopStep K.sid] [] (some (K.sq (K.cnt c i) (.slept i))) (K.logCI c i)
+  | .W1 c i => K.mkSt (K.tm c i) [.ff K.sid (K.val i)] [⟨K.tm c i + eff (K.dl i), 0, .loopStep K.sid⟩]
       (some (K.sq (K.cnt c i) (.slept i))) (K.logCI c i)
-  | .W2 c i => mkSt (K.tm c i) [] [⟨K.tm c i + eff (K.dl i), 0, .loopStep 0⟩]
+  | .W2 c i t => K.mkSt t [] [⟨K.tm c i + eff (K.dl i), 0, .loopStep K.sid⟩]
       (some (K.sq (K.cnt c i) (.slept i))) (K.logCI c (i + 1))
-  | .F1 c => mkSt (K.tm c (K.n - 1)) [.ff 0 (K.val (K.n - 1)), .loopStep 0] [] (some (K.sq c .flush)) (K.logCI c (K.n - 1))
-  | .D c => mkSt (K.tm c (K.n - 1)) [] [] none (K.logCI c K.n)
+  | .F1 c => K.mkSt (K.tm c (K.n - 1)) [.ff K.sid (K.val (K.n - 1)), .loopStep K.sid] [] (some (K.sq c .flush)) (K.logCI c (K.n - 1))
+  | .D c t => K.mkSt t [] [] none (K.logCI c K.n)
 
 def Ctx.sleepC (c i : Nat) : C := if K.dl i ≤ 0 then .Z c i else .W1 c i
 
@@ -66,19 +67,19 @@ def Ctx.wakeTo (c i : Nat) : C := if i + 1 < K.n then K.post c (i + 1) else .A (
 def Ctx.nxt : C → C
   | .A c => K.post c 0
   | .Z c i => K.wakeTo c i
-  | .W1 c i => .W2 c i
-  | .W2 c i => K.wakeTo c i
-  | .F1 c => .D c
-  | .D c => .D c
+  | .W1 c i => .W2 c i (K.tm c i)
+  | .W2 c i _ => K.wakeTo c i
+  | .F1 c => .D c (K.tm c (K.n - 1))
+  | .D c t => .D c t
 
 /-- well-formed compact states -/
 def Ctx.ok : C → Prop
   | .A _ => True
   | .Z _ i => i < K.n ∧ K.dl i ≤ 0
   | .W1 _ i => i < K.n ∧ 0 < K.dl i
-  | .W2 _ i => i < K.n ∧ 0 < K.dl i
+  | .W2 c i t => i < K.n ∧ 0 < K.dl i ∧ t < K.tm c i + eff (K.dl i)
   | .F1 _ => True
-  | .D _ => True
+  | .D _ _ => True
 
 structure Ctx.WF : Prop where
   npos : 0 < K.n
@@ -128,10 +129,10 @@ theorem passAt_length (c : Nat) : (passAt K.t0 K.vs K.ds c).length = K.n := by
   simp [passAt, Ctx.n]
 
 theorem logCI_succ {c i : Nat} (h : i < K.n) :
-    K.logCI c i ++ [.sub (K.tm c i) 0 (K.val i)] = K.logCI c (i + 1) := by
+    K.logCI c i ++ [.sub (K.tm c i) K.sid (K.val i)] = K.logCI c (i + 1) := by
   unfold Ctx.logCI
   rw [List.take_add_one, passAt_get K h]
-  simp [toEv]
+  simp [Ctx.toEv]
 
 theorem logCI_pass (c : Nat) : K.logCI c K.n = K.logCI (c + 1) 0 := by
   unfold Ctx.logCI schedule
@@ -147,7 +148,7 @@ variable (K : Ctx)
 
 /-- what the loop body does for value i of pass c, in a state where nothing else is around -/
 theorem body_post (wf : K.WF) {c i : Nat} {pos : Pos} (hi : i < K.n) (q0 : Option Seq) :
-    body Fix.repaired (mkSt (K.tm c i) [] [] q0 (K.logCI c i)) (K.sq c pos) i = K.emb (K.post c i) := by
+    body Fix.repaired (K.mkSt (K.tm c i) [] [] q0 (K.logCI c i)) (K.sq c pos) i = K.emb (K.post c i) := by
   have hv := val_get K hi
   have hd := dl_get K wf hi
   unfold body
@@ -157,10 +158,10 @@ theorem body_post (wf : K.WF) {c i : Nat} {pos : Pos} (hi : i < K.n) (q0 : Optio
   · have h1' : i + 1 < K.vs.length := h1
     simp only [h1, h1', if_true]
     unfold sleepOn
-    simp only [St.push, mkSt, St.setSeq, hd]
+    simp only [St.push, Ctx.mkSt, St.setSeq, hd]
     by_cases h2 : K.dl i ≤ 0
-    · simp [h2, Ctx.emb, mkSt, St.push, Ctx.sq, Ctx.cnt, h1]
-    · simp [h2, Ctx.emb, mkSt, St.push, St.addTimer, insertTimer, Ctx.sq, Ctx.cnt, h1, eff]
+    · simp [h2, Ctx.emb, Ctx.mkSt, St.push, Ctx.sq, Ctx.cnt, h1]
+    · simp [h2, Ctx.emb, Ctx.mkSt, St.push, St.addTimer, insertTimer, Ctx.sq, Ctx.cnt, h1, eff]
   · have h1' : ¬ i + 1 < K.vs.length := h1
     have hin : i = K.n - 1 := by omega
     simp only [h1, h1', if_false]
@@ -169,15 +170,15 @@ theorem body_post (wf : K.WF) {c i : Nat} {pos : Pos} (hi : i < K.n) (q0 : Optio
       simp only [Ctx.sq] at h3'
       simp only [h3, h3', Fix.repaired, if_true]
       subst hin
-      simp [Ctx.emb, mkSt, St.push, St.setSeq, Ctx.sq]
+      simp [Ctx.emb, Ctx.mkSt, St.push, St.setSeq, Ctx.sq]
     · have h3' : ¬ (K.sq c pos).lastPass = true := h3
       simp only [Ctx.sq] at h3'
       simp only [h3, h3', if_false]
       unfold sleepOn
-      simp only [St.push, mkSt, St.setSeq, hd]
+      simp only [St.push, Ctx.mkSt, St.setSeq, hd]
       by_cases h2 : K.dl i ≤ 0
-      · simp [h2, Ctx.emb, mkSt, St.push, Ctx.sq, Ctx.cnt, h1]
-      · simp [h2, Ctx.emb, mkSt, St.push, St.addTimer, insertTimer, Ctx.sq, Ctx.cnt, h1, eff]
+      · simp [h2, Ctx.emb, Ctx.mkSt, St.push, Ctx.sq, Ctx.cnt, h1]
+      · simp [h2, Ctx.emb, Ctx.mkSt, St.push, St.addTimer, insertTimer, Ctx.sq, Ctx.cnt, h1, eff]
 
 end Play
 end QtVerif.Sequence
@@ -187,15 +188,15 @@ namespace Play
 variable (K : Ctx)
 
 theorem mkSt_congr {now now' : Nat} {rdy : List Handle} {tms : List Timer} {q : Option Seq} {log log' : List Event}
-    (h1 : now = now') (h2 : log = log') : mkSt now rdy tms q log = mkSt now' rdy tms q log' := by
+    (h1 : now = now') (h2 : log = log') : K.mkSt now rdy tms q log = K.mkSt now' rdy tms q log' := by
   subst h1; subst h2; rfl
 
 /-- the loop task wakes up after the sleep that follows value i of pass c -/
 theorem wake_step (wf : K.WF) {c i : Nat} (hi : i < K.n) :
-    loopStep Fix.repaired (mkSt (K.tm c (i + 1)) [] [] (some (K.sq (K.cnt c i) (.slept i))) (K.logCI c (i + 1))) 0
+    loopStep Fix.repaired (K.mkSt (K.tm c (i + 1)) [] [] (some (K.sq (K.cnt c i) (.slept i))) (K.logCI c (i + 1))) K.sid
       = K.emb (K.wakeTo c i) := by
   unfold loopStep Ctx.wakeTo
-  simp only [mkSt, Ctx.sq]
+  simp only [Ctx.mkSt, Ctx.sq, ne_eq, not_true_eq_false, if_false]
   by_cases h1 : i + 1 < K.n
   · have h1' : i + 1 < K.vs.length := h1
     have hc : K.cnt c i = c := by simp [Ctx.cnt, h1]
@@ -205,17 +206,17 @@ theorem wake_step (wf : K.WF) {c i : Nat} (hi : i < K.n) :
     have hc : K.cnt c i = c + 1 := by simp [Ctx.cnt, h1]
     have hin : i + 1 = K.n := by omega
     simp only [h1, h1', if_false, hc]
-    simp only [Ctx.emb, St.setSeq, St.push, mkSt, Ctx.sq]
+    simp only [Ctx.emb, St.setSeq, St.push, Ctx.mkSt, Ctx.sq]
     rw [hin, ← tm_pass K wf c, logCI_pass K c]
     simp
 
 /-- the fire-and-forget task of value i of pass c submits it -/
 theorem ff_step {c i : Nat} (hi : i < K.n) (rdy : List Handle) (tms : List Timer) (q : Option Seq) :
-    exec Fix.repaired (mkSt (K.tm c i) rdy tms q (K.logCI c i)) (.ff 0 (K.val i))
-      = mkSt (K.tm c i) rdy tms q (K.logCI c (i + 1)) := by
+    exec Fix.repaired (K.mkSt (K.tm c i) rdy tms q (K.logCI c i)) (.ff K.sid (K.val i))
+      = K.mkSt (K.tm c i) rdy tms q (K.logCI c (i + 1)) := by
   have hl := congrArg List.length (logCI_succ K (c := c) hi)
   simp only [List.length_append, List.length_singleton] at hl
-  simp [exec, St.emit, mkSt, logCI_succ K hi, ← hl]
+  simp [exec, St.emit, Ctx.mkSt, logCI_succ K hi, ← hl]
 
 end Play
 end QtVerif.Sequence
@@ -235,69 +236,67 @@ theorem iter_emb (wf : K.WF) (x : C) (hx : K.ok x) : iter Fix.repaired (K.emb x)
   have np := wf.npos
   cases x with
   | A c =>
-    have e : K.emb (.A c) = mkSt (K.tm c 0) [.loopStep 0] [] (some (K.sq c .start)) (K.logCI c 0) := rfl
+    have e : K.emb (.A c) = K.mkSt (K.tm c 0) [.loopStep K.sid] [] (some (K.sq c .start)) (K.logCI c 0) := rfl
     rw [e]
-    simp only [Ctx.nxt, iter, mkSt, jump, moveDue, List.takeWhile, List.dropWhile, List.map, List.append_nil,
+    simp only [Ctx.nxt, iter, Ctx.mkSt, jump, moveDue, List.takeWhile, List.dropWhile, List.map, List.append_nil,
       List.length, runHandles, exec, Bool.false_eq_true, if_false]
     have := body_post K wf (c := c) (i := 0) (pos := .start) np (some (K.sq c .start))
-    simpa [loopStep, mkSt, Ctx.sq] using this
+    simpa [loopStep, Ctx.mkSt, Ctx.sq] using this
   | Z c i =>
     obtain ⟨hi, hd⟩ := hx
-    have e : K.emb (.Z c i) = mkSt (K.tm c i) [.ff 0 (K.val i), .loopStep 0] [] (some (K.sq (K.cnt c i) (.slept i))) (K.logCI c i) := rfl
+    have e : K.emb (.Z c i) = K.mkSt (K.tm c i) [.ff K.sid (K.val i), .loopStep K.sid] [] (some (K.sq (K.cnt c i) (.slept i))) (K.logCI c i) := rfl
     rw [e]
     have ht : K.tm c (i + 1) = K.tm c i := by rw [tm_succ K wf hi, eff_nonpos hd]; rfl
-    have h1 := ff_step K (c := c) hi [.loopStep 0] [] (some (K.sq (K.cnt c i) (.slept i)))
+    have h1 := ff_step K (c := c) hi [.loopStep K.sid] [] (some (K.sq (K.cnt c i) (.slept i)))
     have h2 := wake_step K wf (c := c) hi
     rw [ht] at h2
     simp only [Ctx.nxt, iter, jump, moveDue]
-    simp only [mkSt, List.takeWhile, List.dropWhile, List.map, List.append_nil, List.length, runHandles,
+    simp only [Ctx.mkSt, List.takeWhile, List.dropWhile, List.map, List.append_nil, List.length, runHandles,
       Bool.false_eq_true, if_false] at h1 h2 ⊢
     rw [h1]
     simp only [exec, Bool.false_eq_true, if_false]
     exact h2
   | W1 c i =>
     obtain ⟨hi, hd⟩ := hx
-    have e : K.emb (.W1 c i) = mkSt (K.tm c i) [.ff 0 (K.val i)] [⟨K.tm c i + eff (K.dl i), 0, .loopStep 0⟩]
+    have e : K.emb (.W1 c i) = K.mkSt (K.tm c i) [.ff K.sid (K.val i)] [⟨K.tm c i + eff (K.dl i), 0, .loopStep K.sid⟩]
       (some (K.sq (K.cnt c i) (.slept i))) (K.logCI c i) := rfl
-    have e2 : K.emb (.W2 c i) = mkSt (K.tm c i) [] [⟨K.tm c i + eff (K.dl i), 0, .loopStep 0⟩]
+    have e2 : K.emb (.W2 c i (K.tm c i)) = K.mkSt (K.tm c i) [] [⟨K.tm c i + eff (K.dl i), 0, .loopStep K.sid⟩]
       (some (K.sq (K.cnt c i) (.slept i))) (K.logCI c (i + 1)) := rfl
     rw [e]
     have hp := eff_pos hd
     have hnd : ¬ (K.tm c i + eff (K.dl i) ≤ K.tm c i) := by omega
-    have h1 := ff_step K (c := c) hi [] [⟨K.tm c i + eff (K.dl i), 0, .loopStep 0⟩] (some (K.sq (K.cnt c i) (.slept i)))
+    have h1 := ff_step K (c := c) hi [] [⟨K.tm c i + eff (K.dl i), 0, .loopStep K.sid⟩] (some (K.sq (K.cnt c i) (.slept i)))
     simp only [Ctx.nxt, iter, jump, moveDue]
     rw [e2]
-    simp only [mkSt, List.takeWhile, List.dropWhile, hnd, decide_false, List.map, List.append_nil, List.length, runHandles,
+    simp only [Ctx.mkSt, List.takeWhile, List.dropWhile, hnd, decide_false, List.map, List.append_nil, List.length, runHandles,
       Bool.false_eq_true, if_false] at h1 ⊢
     rw [h1]
-  | W2 c i =>
-    obtain ⟨hi, hd⟩ := hx
-    have e : K.emb (.W2 c i) = mkSt (K.tm c i) [] [⟨K.tm c i + eff (K.dl i), 0, .loopStep 0⟩]
+  | W2 c i t =>
+    obtain ⟨hi, hd, hlt⟩ := hx
+    have e : K.emb (.W2 c i t) = K.mkSt t [] [⟨K.tm c i + eff (K.dl i), 0, .loopStep K.sid⟩]
       (some (K.sq (K.cnt c i) (.slept i))) (K.logCI c (i + 1)) := rfl
     rw [e]
-    have hp := eff_pos hd
-    have hlt : K.tm c i < K.tm c i + eff (K.dl i) := by omega
     have h2 := wake_step K wf (c := c) hi
     rw [tm_succ K wf hi] at h2
     simp only [Ctx.nxt, iter, jump, moveDue]
-    simp only [mkSt, hlt, if_true, List.takeWhile, List.dropWhile, Nat.le_refl, decide_true, List.map, List.nil_append,
+    simp only [Ctx.mkSt, hlt, if_true, List.takeWhile, List.dropWhile, Nat.le_refl, decide_true, List.map, List.nil_append,
       List.length, runHandles, exec, Bool.false_eq_true, if_false] at h2 ⊢
     exact h2
   | F1 c =>
-    have e : K.emb (.F1 c) = mkSt (K.tm c (K.n - 1)) [.ff 0 (K.val (K.n - 1)), .loopStep 0] [] (some (K.sq c .flush))
+    have e : K.emb (.F1 c) = K.mkSt (K.tm c (K.n - 1)) [.ff K.sid (K.val (K.n - 1)), .loopStep K.sid] [] (some (K.sq c .flush))
       (K.logCI c (K.n - 1)) := rfl
     rw [e]
     have hi : K.n - 1 < K.n := by omega
     have hn : K.n - 1 + 1 = K.n := by omega
-    have h1 := ff_step K (c := c) hi [.loopStep 0] [] (some (K.sq c .flush))
+    have h1 := ff_step K (c := c) hi [.loopStep K.sid] [] (some (K.sq c .flush))
     rw [hn] at h1
     simp only [Ctx.nxt, iter, jump, moveDue]
-    simp only [mkSt, List.takeWhile, List.dropWhile, List.map, List.append_nil, List.length, runHandles,
+    simp only [Ctx.mkSt, List.takeWhile, List.dropWhile, List.map, List.append_nil, List.length, runHandles,
       Bool.false_eq_true, if_false] at h1 ⊢
     rw [h1]
-    simp [exec, loopStep, Ctx.sq, finishSeq, St.setSeq, Ctx.emb, mkSt]
-  | D c =>
-    simp [Ctx.nxt, Ctx.emb, iter, mkSt, jump, moveDue, runHandles]
+    simp [exec, loopStep, Ctx.sq, finishSeq, St.setSeq, Ctx.emb, Ctx.mkSt]
+  | D c t =>
+    simp [Ctx.nxt, Ctx.emb, iter, Ctx.mkSt, jump, moveDue, runHandles]
 
 end Play
 end QtVerif.Sequence
@@ -334,10 +333,10 @@ theorem ok_nxt (wf : K.WF) (x : C) (hx : K.ok x) : K.ok (K.nxt x) := by
   cases x with
   | A c => exact ok_post K wf.npos
   | Z c i => exact ok_wakeTo K
-  | W1 c i => exact hx
-  | W2 c i => exact ok_wakeTo K
+  | W1 c i => exact ⟨hx.1, hx.2, by have := eff_pos hx.2; omega⟩
+  | W2 c i t => exact ok_wakeTo K
   | F1 c => trivial
-  | D c => trivial
+  | D c t => trivial
 
 theorem ok_nxtN (wf : K.WF) (k : Nat) (x : C) (hx : K.ok x) : K.ok (K.nxtN k x) := by
   induction k generalizing x with
@@ -362,7 +361,7 @@ def Ctx.last (c : Nat) : Bool := (K.sq c .start).lastPass
 
 /-- from the state after callback i of pass c the run reaches the end of the pass -/
 theorem reach_pass_end (c : Nat) (j : Nat) : ∀ i, i < K.n → K.n - 1 - i = j →
-    ∃ k, K.nxtN k (K.post c i) = if K.last c then .D c else .A (c + 1) := by
+    ∃ k, K.nxtN k (K.post c i) = if K.last c then .D c (K.tm c (K.n - 1)) else .A (c + 1) := by
   induction j with
   | zero =>
     intro i hi hj
@@ -390,7 +389,7 @@ theorem reach_pass_end (c : Nat) (j : Nat) : ∀ i, i < K.n → K.n - 1 - i = j 
       simpa [Ctx.post, hl, Ctx.sleepC, hd, Ctx.nxtN, Ctx.nxt, Ctx.wakeTo] using hk
 
 theorem reach_pass (wf : K.WF) (c : Nat) :
-    ∃ k, K.nxtN k (.A c) = if K.last c then .D c else .A (c + 1) := by
+    ∃ k, K.nxtN k (.A c) = if K.last c then .D c (K.tm c (K.n - 1)) else .A (c + 1) := by
   obtain ⟨k, hk⟩ := reach_pass_end K c (K.n - 1 - 0) 0 wf.npos rfl
   exact ⟨1 + k, by rw [nxtN_add]; simpa [Ctx.nxtN, Ctx.nxt] using hk⟩
 
@@ -414,18 +413,18 @@ namespace QtVerif.Sequence
 namespace Play
 variable (K : Ctx)
 
-theorem installed_eq (h : K.vs ≠ []) : St.installed K.t0 K.vs K.ds K.r = K.emb (.A 0) := by
+theorem installed_eq (h : K.vs ≠ []) (hs : K.sid = 0) : St.installed K.t0 K.vs K.ds K.r = K.emb (.A 0) := by
   have : K.vs.isEmpty = false := by cases hv : K.vs with | nil => exact absurd hv h | cons a b => rfl
-  simp [St.installed, install, this, St.init, St.setSeq, St.push, Ctx.emb, mkSt, Ctx.sq, Ctx.tm, Ctx.logCI, pre, schedule]
+  simp [St.installed, install, this, St.init, St.setSeq, St.push, Ctx.emb, Ctx.mkSt, Ctx.sq, Ctx.tm, Ctx.logCI, pre, schedule, hs]
 
-theorem subsOf_map_toEv (l : List (Nat × Val)) : subsOf (l.map toEv) = l := by
+theorem subsOf_map_toEv (l : List (Nat × Val)) : subsOf (l.map K.toEv) = l := by
   induction l with
   | nil => rfl
-  | cons a l ih => simp [subsOf, toEv] at ih ⊢; exact ih
+  | cons a l ih => simp [subsOf, Ctx.toEv] at ih ⊢; exact ih
 
 theorem subsOf_logCI (c i : Nat) :
     subsOf (K.logCI c i) = schedule K.t0 K.vs K.ds c ++ (passAt K.t0 K.vs K.ds c).take i := by
-  unfold Ctx.logCI; exact subsOf_map_toEv _
+  unfold Ctx.logCI; exact subsOf_map_toEv K _
 
 /-- what has been submitted is always some full passes followed by the beginning of the next one -/
 theorem log_emb (x : C) : ∃ c i, (K.emb x).log = K.logCI c i := by
@@ -433,12 +432,12 @@ theorem log_emb (x : C) : ∃ c i, (K.emb x).log = K.logCI c i := by
   | A c => exact ⟨c, 0, rfl⟩
   | Z c i => exact ⟨c, i, rfl⟩
   | W1 c i => exact ⟨c, i, rfl⟩
-  | W2 c i => exact ⟨c, i + 1, rfl⟩
+  | W2 c i t => exact ⟨c, i + 1, rfl⟩
   | F1 c => exact ⟨c, K.n - 1, rfl⟩
-  | D c => exact ⟨c, K.n, rfl⟩
+  | D c t => exact ⟨c, K.n, rfl⟩
 
 def live : C → Prop
-  | .D _ => False
+  | .D _ _ => False
   | .F1 _ => False
   | _ => True
 
@@ -464,9 +463,9 @@ theorem live_nxt (hr : ∀ c, K.last c = false) (x : C) (hx : live x) : live (K.
   | A c => exact live_post K hr c 0
   | Z c i => exact live_wakeTo K hr c i
   | W1 c i => trivial
-  | W2 c i => exact live_wakeTo K hr c i
+  | W2 c i t => exact live_wakeTo K hr c i
   | F1 c => exact hx.elim
-  | D c => exact hx.elim
+  | D c t => exact hx.elim
 
 theorem live_nxtN (hr : ∀ c, K.last c = false) (k : Nat) (x : C) (hx : live x) : live (K.nxtN k x) := by
   induction k generalizing x with
@@ -477,7 +476,7 @@ theorem live_seq (x : C) (hx : live x) : (K.emb x).port.seq.isSome = true := by
   cases x <;> first | rfl | exact hx.elim
 
 theorem idle_flushed (x : C) (h : (K.emb x).port.seq = none) : (K.emb x).ready = [] := by
-  cases x <;> first | rfl | (simp [Ctx.emb, mkSt] at h)
+  cases x <;> first | rfl | (simp [Ctx.emb, Ctx.mkSt] at h)
 
 end Play
 
@@ -488,9 +487,9 @@ theorem finished_means_flushed (t0 : Nat) (vs : List Val) (ds : List Int) (r : I
     (hne : vs ≠ []) (hlen : ds.length = vs.length) (k : Nat)
     (h : (iterN Fix.repaired k (St.installed t0 vs ds r)).port.seq = none) :
     (iterN Fix.repaired k (St.installed t0 vs ds r)).ready = [] := by
-  let K : Ctx := ⟨t0, vs, ds, r⟩
+  let K : Ctx := ⟨t0, vs, ds, r, 0⟩
   have wf : K.WF := ⟨by show 0 < vs.length; exact List.length_pos_iff.mpr hne, hlen⟩
-  have h0 : St.installed t0 vs ds r = K.emb (.A 0) := installed_eq K hne
+  have h0 : St.installed t0 vs ds r = K.emb (.A 0) := installed_eq K hne rfl
   rw [h0, iterN_emb K wf _ (.A 0) trivial] at h ⊢
   exact idle_flushed K _ h
 
@@ -505,9 +504,9 @@ theorem playback_finite (t0 : Nat) (vs : List Val) (ds : List Int) (r : Int)
       subsOf s.log = schedule t0 vs ds r.toNat ∧ ∀ m, iterN Fix.repaired m s = s) ∧
     (∀ k, ∃ c i, subsOf (iterN Fix.repaired k (St.installed t0 vs ds r)).log
         = schedule t0 vs ds c ++ (passAt t0 vs ds c).take i) := by
-  let K : Ctx := ⟨t0, vs, ds, r⟩
+  let K : Ctx := ⟨t0, vs, ds, r, 0⟩
   have wf : K.WF := ⟨by show 0 < vs.length; exact List.length_pos_iff.mpr hne, hlen⟩
-  have h0 : St.installed t0 vs ds r = K.emb (.A 0) := installed_eq K hne
+  have h0 : St.installed t0 vs ds r = K.emb (.A 0) := installed_eq K hne rfl
   constructor
   · have hA : ∃ k, K.nxtN k (.A 0) = .A (r.toNat - 1) := by
       apply reach_A K wf
@@ -522,7 +521,7 @@ theorem playback_finite (t0 : Nat) (vs : List Val) (ds : List Int) (r : Int)
     rw [hl] at hk2
     simp only [if_true] at hk2
     refine ⟨k1 + k2, ?_⟩
-    have hs : iterN Fix.repaired (k1 + k2) (St.installed t0 vs ds r) = K.emb (.D (r.toNat - 1)) := by
+    have hs : iterN Fix.repaired (k1 + k2) (St.installed t0 vs ds r) = K.emb (.D (r.toNat - 1) (K.tm (r.toNat - 1) (K.n - 1))) := by
       rw [h0, iterN_emb K wf _ (.A 0) trivial, nxtN_add, hk1, hk2]
     simp only [hs]
     refine ⟨rfl, rfl, rfl, rfl, ?_, ?_⟩
@@ -531,7 +530,7 @@ theorem playback_finite (t0 : Nat) (vs : List Val) (ds : List Int) (r : Int)
       have : r.toNat - 1 + 1 = r.toNat := by omega
       rw [this]; simp; rfl
     · intro m
-      rw [iterN_emb K wf _ (.D _) trivial]
+      rw [iterN_emb K wf _ (.D _ _) trivial]
       congr 1
       induction m with
       | zero => rfl
@@ -551,9 +550,9 @@ theorem playback_forever (t0 : Nat) (vs : List Val) (ds : List Int) (r : Int)
       ∃ c i, subsOf (iterN Fix.repaired k (St.installed t0 vs ds r)).log
         = schedule t0 vs ds c ++ (passAt t0 vs ds c).take i) ∧
     (∀ c, ∃ k, subsOf (iterN Fix.repaired k (St.installed t0 vs ds r)).log = schedule t0 vs ds c) := by
-  let K : Ctx := ⟨t0, vs, ds, r⟩
+  let K : Ctx := ⟨t0, vs, ds, r, 0⟩
   have wf : K.WF := ⟨by show 0 < vs.length; exact List.length_pos_iff.mpr hne, hlen⟩
-  have h0 : St.installed t0 vs ds r = K.emb (.A 0) := installed_eq K hne
+  have h0 : St.installed t0 vs ds r = K.emb (.A 0) := installed_eq K hne rfl
   have hl : ∀ c, K.last c = false := by
     intro c
     cases h : K.last c with
